@@ -41,8 +41,10 @@ def parseFrame (s : String) : Option SFrame :=
   match s.splitOn ":" with
   | ["sup"] => some .supported
   | ["rdy"] => some .ready
-  | ["chal"] => some .authChallenge
-  | ["succ"] => some .authSuccess
+  | ["chal"] => some (.authChallenge [0x78])      -- the harness's default challenge payload "x"
+  | ["succ"] => some (.authSuccess [])            -- null bytes
+  | ["chal", h] => (parseHex h).map .authChallenge
+  | ["succ", h] => (parseHex h).map .authSuccess
   | ["err"] => some .error
   | ["other"] => some .other
   | ["auth", h] => (parseHex h).map .authenticate
@@ -51,14 +53,57 @@ def parseFrame (s : String) : Option SFrame :=
 def parseList (s : String) : Option (List (List UInt8)) :=
   if s == "none" then some [] else (s.splitOn ",").mapM parseHex
 
-/-- `none` or `pw:<user>:<pass>:<allowed>` -/
-def parseAuth (s : String) : Option (Option PwAuth) :=
+/-- `<resp>.<fail><last>` -/
+def parseRound (s : String) : Option Round :=
+  match s.splitOn "." with
+  | [h, fl] => match parseHex h, fl.toList with
+    | some r, [f, l] => some { resp := r, fail := f == '1', last := l == '1' }
+    | _, _ => none
+  | _ => none
+
+/-- `none`, `pw:<user>:<pass>:<allowed>` or `cu:<round>,<round>…|none:<successFails>` -/
+def parseAuth (s : String) : Option (Option AuthImpl) :=
   match s.splitOn ":" with
   | ["none"] => some none
   | ["pw", u, p, a] => match parseHex u, parseHex p, parseList a with
-    | some u, some p, some a => some (some { user := u, pass := p, allowed := a })
+    | some u, some p, some a => some (some (.pw { user := u, pass := p, allowed := a }))
     | _, _, _ => none
+  | ["cu", rs, sf] => match (if rs == "none" then some [] else (rs.splitOn ",").mapM parseRound), parseBool sf with
+    | some rs, some sf => some (some (.custom rs sf))
+    | _, _ => none
   | _ => none
+
+/-- provider result: `nil`, `err`, `<auth>`, `<auth>+err` -/
+def parseProvRes (s : String) : Option ProvRes :=
+  if s == "nil" then some (.auth none)
+  else if s == "err" then some (.err none)
+  else match s.splitOn "+" with
+    | [a] => (parseAuth a).map .auth
+    | [a, "err"] => (parseAuth a).map .err
+    | _ => none
+
+/-- `-` (no provider) or `<host>=<res>/…/*=<res>`; hosts without an entry get (nil, nil) -/
+def parseProvider (s : String) : Option (Option (Nat → ProvRes)) :=
+  if s == "-" then some none else do
+    let es ← (s.splitOn "/").mapM (fun e => match e.splitOn "=" with
+      | [k, r] => do
+        let r ← parseProvRes r
+        if k == "*" then pure (none, r) else do
+          let k ← k.toNat?
+          pure (some k, r)
+      | _ => none)
+    let dflt := match es.find? (fun e => e.1.isNone) with | some e => e.2 | none => ProvRes.auth none
+    pure (some (fun h => match es.find? (fun e => e.1 == some h) with | some e => e.2 | none => dflt))
+
+def dropPrefix (pre s : String) : Option String :=
+  if s.startsWith pre then some (s.drop pre.length).toString else none
+
+/-- `host=<k> static=<auth> prov=<provider>` -/
+def parseConn (h st pv : String) : Option (Nat × AuthCfg) := do
+  let h ← (← dropPrefix "host=" h).toNat?
+  let st ← parseAuth (← dropPrefix "static=" st)
+  let pv ← parseProvider (← dropPrefix "prov=" pv)
+  pure (h, { static := st, provider := pv })
 
 def showSent : Sent → String
   | .options => "options"
@@ -73,7 +118,94 @@ def showOutcome : Outcome → String
   | .errUnapproved => "err:unapproved"
   | .errAuthFrame => "err:auth-frame"
   | .errClosed => "err:closed"
+  | .errAuthenticator => "err:authenticator"
+  | .errAuthSuccess => "err:auth-success"
+  | .errProvider => "err:provider"
+  | .errBoth => "err:both"
+  | .errTlsVerify => "err:tls-verify"
   | .crash => "crash"
+
+def showCall : Call → String
+  | .challenge r => "c:" ++ toHex r
+  | .success d => "s:" ++ toHex d
+
+def showList (l : List String) : String := if l.isEmpty then "-" else ",".intercalate l
+
+/-- only caller-supplied authenticators record the calls made on them -/
+def isCustom : Option (Option AuthImpl) → Bool
+  | some (some (.custom _ _)) => true
+  | _ => false
+
+/-- canonical rendering of a connection attempt; a process-fatal outcome is rendered `crash:<function> …` -/
+def showTrace (t : Trace) (custom withProv : Bool) (pre : String := "") : String :=
+  let body := pre ++ "sent=" ++ showList (t.sent.map showSent) ++
+    " calls=" ++ (if custom then showList (t.calls.map showCall) else "-") ++
+    (if withProv then " prov=" ++ showList (t.provCalls.map toString) else "")
+  if t.outcome = .crash then "crash:authenticateHandshake " ++ body
+  else body ++ " outcome=" ++ showOutcome t.outcome
+
+def nodeName (n : String) : Option (List UInt8) :=
+  match n with
+  | "a" => some (strBytes "node-a.verif.example")
+  | "b" => some (strBytes "node-b.verif.example")
+  | _ => none
+
+def otherNode (n : String) : String := if n == "a" then "b" else "a"
+
+def loopback : List UInt8 := strBytes "127.0.0.1"
+
+/-- the certificates of the end-to-end scenarios (harness/cmd/c20/child.go `getTLSEnv`) -/
+def nodeCert (n kind : String) : Option ServerCert := do
+  let own ← nodeName n
+  let peer ← nodeName (otherNode n)
+  match kind with
+  | "good" => some { sans := [own, snExample, loopback], signer := .fileCA }
+  | "poolgood" => some { sans := [own, snExample, loopback], signer := .poolCA }
+  | "peer" => some { sans := [peer, snExample, loopback], signer := .fileCA }
+  | "other" => some { sans := [strBytes "other.verif.example"], signer := .fileCA }
+  | "rogue" => some { sans := [own, snExample, loopback], signer := .rogue }
+  | _ => none
+
+/-- `nil` or `I<0|1>S<0|1>R<0|1>` -/
+def parseTlsCfg (s : String) : Option (Option UserCfg) :=
+  if s == "nil" then some none else
+  match s.toList with
+  | ['I', i, 'S', sn, 'R', r] =>
+    some (some { insecure := i == '1', serverName := if sn == '1' then snExample else [], hasRootCAs := r == '1', nCerts := 0 })
+  | _ => none
+
+/-- `<node>:<n|i>` → (node, the host name HostnameAndPort() yields) -/
+def parseDial (s : String) : Option (String × List UInt8) :=
+  match s.splitOn ":" with
+  | [n, "n"] => (nodeName n).map (fun h => (n, h))
+  | [n, "i"] => (nodeName n).map (fun _ => (n, loopback))
+  | _ => none
+
+/-- crypto/tls sends no server_name extension for IP literals -/
+def sniOf (name : List UInt8) : List UInt8 :=
+  if name.all (fun c => (48 ≤ c && c ≤ 57) || c == 46 || c == 58 || c == 91 || c == 93) then [] else name
+
+structure TlsOp where
+  o : SslOpts
+  auth : Option AuthImpl
+  fs : List SFrame
+  certA : String
+  certB : String
+  dials : List String
+
+def parseTlsOp (ws : List String) : Option TlsOp :=
+  match ws with
+  | cfg :: ehv :: ca :: auth :: cls :: ca' :: cb :: dials => do
+    let cfg ← parseTlsCfg cfg
+    let ehv ← parseBool ehv
+    let ca ← parseFileSt ca
+    let auth ← parseAuth auth
+    let cls ← parseHex cls
+    pure { o := { cfg := cfg, enableHostVerification := ehv, ca := ca, cert := .absent, key := .absent }, auth := auth,
+           fs := [.supported, .authenticate cls, .authSuccess []], certA := ca', certB := cb, dials := dials }
+  | _ => none
+
+def credSent (t : Trace) : Bool := t.sent.any (fun x => match x with | .authResponse _ => true | _ => false)
 
 def parseDocCfg (s : String) : Option (Option Bool) :=
   match s with
@@ -85,7 +217,9 @@ def parseDocCfg (s : String) : Option (Option Bool) :=
   join <host> <port>                         → address (net.JoinHostPort as used by HostnameAndPort)
   approve <class> <allowed…|none>            → true|false
   challenge <user> <pass> <allowed> <class>  → token | err
-  hs <auth> <frames…>                        → sent=… outcome=…
+  hs <auth> <frames…>                        → sent=… calls=… outcome=…   (process-fatal: crash:<function> sent=… calls=…)
+  hsx host=<k> static=<auth> prov=<provider> <frames…>        → sent=… calls=… prov=… outcome=…  (Conn.init + start-up)
+  newsession host=<k> static=<auth> prov=<provider> <frames…> → dials=… post=… sent=… (NewSession with a scripted dialer)
   doc <file> <nil|false|true> <false|true>   → verify | noverify | missing (documented table) -/
 def step (_ : Unit) (ws : List String) : Unit × String :=
   ((), match ws with
@@ -119,9 +253,57 @@ def step (_ : Unit) (ws : List String) : Unit × String :=
       | none => "err"
     | _, _, _, _ => "bad-op"
   | "hs" :: a :: fs => match parseAuth a, fs.mapM parseFrame with
-    | some a, some fs =>
-      let r := handshake a fs
-      "sent=" ++ ",".intercalate (r.1.map showSent) ++ " outcome=" ++ showOutcome r.2
+    | some a, some fs => showTrace (handshake a fs) (isCustom (some a)) false
+    | _, _ => "bad-op"
+  | "hsx" :: h :: st :: pv :: fs => match parseConn h st pv, fs.mapM parseFrame with
+    | some (h, cfg), some fs => showTrace (connect cfg h fs) (isCustom (Spec.credentials cfg h)) true
+    | _, _ => "bad-op"
+  | "newsession" :: h :: st :: pv :: fs => match parseConn h st pv, fs.mapM parseFrame with
+    | some (h, cfg), some fs =>
+      let r := newSession cfg h fs
+      showTrace r.1 (isCustom (Spec.credentials cfg h) && r.2 != 0) true s!"dials={r.2} post={bit (r.1.outcome = .ready)} "
+    | _, _ => "bad-op"
+  -- property monitors evaluated by the harness on the OBSERVED trace (see harness/cmd/c20/child.go `monitor`):
+  -- every trace of the model satisfies them (C20_auth_resolution, C20_no_credentials_no_session,
+  -- C20_ready_only_after_success, C20_credentials_per_host, C20_custom_tokens_in_order, C20_challenge_requests,
+  -- C20_success_error_fails), so the model's answer is `ok` — except on the known fatal inputs
+  -- (C20_no_crash_partial / C20_cex_nil_challenger), where model and code both die
+  | "mon" :: h :: st :: pv :: fs => match parseConn h st pv, fs.mapM parseFrame with
+    | some (h, cfg), some fs =>
+      if cfg.static.isSome && cfg.provider.isSome then "bad-op"
+      else if (connect cfg h fs).outcome = .crash then "crash:authenticateHandshake" else "ok"
+    | _, _ => "bad-op"
+  -- end to end with TLS, one answer per dial (model vs code)
+  | "tlsx" :: rest => match parseTlsOp rest with
+    | some t =>
+      match t.dials.mapM (fun d => do
+        let (n, host) ← parseDial d
+        let cert ← nodeCert n (if n == "a" then t.certA else t.certB)
+        match dialTLS t.o host (strBytes "9042") cert t.auth t.fs with
+        | .ok r => some (s!"{d} sni={toHex (sniOf r.serverName)} tls={if r.accepted then "ok" else "fail"} sent=" ++
+            showList (r.trace.sent.map showSent) ++ " outcome=" ++ showOutcome r.trace.outcome)
+        | .error _ => none) with
+      | some l => " | ".intercalate l
+      | none => "bad-op"
+    | none => "bad-op"
+  -- C20_credentials_only_after_verification: the SPECIFICATION side (documented table, expected name, the CA)
+  | "tlscred" :: rest => match parseTlsOp rest with
+    | some t =>
+      match t.dials.mapM (fun d => do
+        let (n, host) ← parseDial d
+        let cert ← nodeCert n (if n == "a" then t.certA else t.certB)
+        let go := Spec.mayProceed t.o host cert
+        let cred := go && (match t.auth, t.fs with
+          | some (.pw p), [_, .authenticate cls, _] => approve cls p.allowed
+          | _, _ => false)
+        some s!"{d} proceeded={bit go} cred={bit cred}") with
+      | some l => " | ".intercalate l
+      | none => "bad-op"
+    | none => "bad-op"
+  -- C20_session_config: both Authenticator and AuthProvider ⇒ refused before anything is dialled
+  | "sesscfg" :: h :: st :: pv :: fs => match parseConn h st pv, fs.mapM parseFrame with
+    | some (_, cfg), some _ =>
+      if cfg.static.isSome && cfg.provider.isSome then "refused:both dials=0" else "accepted dials=1"
     | _, _ => "bad-op"
   -- property-oracle ops (spec-backed): the answer is what the PROPERTY demands; the theorems of Proofs/C20.lean
   -- say the model gives the same
@@ -147,13 +329,30 @@ def step (_ : Unit) (ws : List String) : Unit × String :=
   | "hsnoauth" :: fs => match fs.mapM parseFrame with                    -- C20_no_auth_no_session
     | some fs =>
       let r := handshake none fs
-      (if r.2 = .ready then "ready" else "refused") ++ " credentials-sent=" ++
-        bit (r.1.any (fun x => match x with | .authResponse _ => true | _ => false))
+      (if r.outcome = .ready then "ready" else "refused") ++ " credentials-sent=" ++ bit (credSent r)
     | none => "bad-op"
+  -- C20_no_credentials_no_session: configurations WITHOUT credentials for the dialled host (nothing configured, or a
+  -- provider that hands out no authenticator for this host); the answer is the property's demand
+  | "nocred" :: h :: st :: pv :: fs => match parseConn h st pv, fs.mapM parseFrame with
+    | some (h, cfg), some fs =>
+      if cfg.static.isSome || Spec.credentials cfg h != some none then "bad-op" else
+      let ready := match fs with | .supported :: .ready :: _ => true | _ => false
+      (if ready then "ready" else "refused") ++ " credentials-sent=0 challenge-calls=0"
+    | _, _ => "bad-op"
+  -- C20_credentials_per_host: which credentials leave the client for this host and class (the specification side:
+  -- Spec.credentials + the approved list + the PLAIN token)
+  | ["disclose2", h, st, pv, c] => match parseConn h st pv, parseHex c with
+    | some (h, cfg), some c =>
+      if cfg.static.isSome && cfg.provider.isSome then "bad-op" else
+      match Spec.credentials cfg h with
+      | some (some (.pw p)) => if approve c p.allowed then "token:" ++ toHex (plainToken p.user p.pass) else "none"
+      | some (some (.custom _ _)) => "bad-op"
+      | _ => "none"
+    | _, _ => "bad-op"
   | ["disclose", a, c] => match parseAuth a, parseHex c with             -- C20_only_approved, C20_plain_token
     | some a, some c =>
-      let r := handshake a [.supported, .authenticate c, .authSuccess]
-      match r.1.filterMap (fun x => match x with | .authResponse t => some t | _ => none) with
+      let r := handshake a [.supported, .authenticate c, .authSuccess []]
+      match r.sent.filterMap (fun x => match x with | .authResponse t => some t | _ => none) with
       | [] => "none"
       | t :: _ => "token:" ++ toHex t
     | _, _ => "bad-op"
@@ -166,6 +365,9 @@ def step (_ : Unit) (ws : List String) : Unit × String :=
       | some false => "noverify"
       | none => "missing"
     | _, _ => "bad-op"
+  -- written by the harness when it cut the campaign short because scenarios sat out the driver's own time-outs:
+  -- in the model (and on the unchanged code) no scenario waits — the scripted peer answers or closes at once
+  | "slowrun" :: _ => "no-scenario-waits"
   | _ => "bad-op")
 
 def init : Unit := ()
